@@ -158,7 +158,24 @@ func featC15(m *gen.Mixed, ts *gen.TieSetup, p *modelParams) {
 	m.ForceGraded[h0+1] = true
 	m.Schedule(h0, func(v *gen.View, s *forge.BlockSpec) {
 		s.Tx = append(s.Tx, forge.SignedBatch([]forge.Tx{forge.Conversion(ts.Whale.FA(), fat2.PTickerUSD, 50_000*1e8, fat2.PTickerXBT)}, m.W.EntryTime(h0)+91, ts.Whale))
+		s.Tx = append(s.Tx, forge.SignedBatch([]forge.Tx{forge.Conversion(ts.Whale.FA(), fat2.PTickerUSD, 40_000*1e8, fat2.PTickerEUR)}, m.W.EntryTime(h0)+92, ts.Whale))
+		s.Tx = append(s.Tx, forge.SignedBatch([]forge.Tx{forge.Conversion(ts.Whale.FA(), fat2.PTickerUSD, 30_000*1e8, fat2.PTickerJPY)}, m.W.EntryTime(h0)+93, ts.Whale))
 	})
+	// the mint address also holds assets that were never minted (pEUR, pJPY) and extra units of minted
+	// ones when the minted supply is burned: the burn removes what remains of the minted amounts only
+	if !p.Literal {
+		mintA, _ := factom.NewFAAddress("FA3j16WPCiqsAFHVZcEoL85Khh5RhPCNe6PWHBKgUxrx8MAnbNoy")
+		for i, hh := range []uint32{e.V204 - 3, e.V204 + 2, e.V204Burn - 2} {
+			hh, i := hh, i
+			m.ForceGraded[hh] = true
+			m.Schedule(hh, func(v *gen.View, s *forge.BlockSpec) {
+				t := []fat2.PTicker{fat2.PTickerEUR, fat2.PTickerJPY, fat2.PTickerEUR}[i]
+				if v.Balances.Get(ts.Whale.FA(), t) > 100e8 {
+					s.Tx = append(s.Tx, forge.SignedBatch([]forge.Tx{forge.Transfer(ts.Whale.FA(), t, uint64(7+i)*1e8, mintA)}, m.W.EntryTime(hh)+94, ts.Whale))
+				}
+			})
+		}
+	}
 }
 
 // literalBusy: in the literal-mainnet chain only the neighbourhoods of activations and some
@@ -450,6 +467,19 @@ func featUngradedSnapshot(m *gen.Mixed, ts *gen.TieSetup, p *modelParams) {
 		delete(m.ForceGraded, h-1)
 		m.ForceUngraded[h-1] = true
 	}
+	// and the snapshot heights between 2.0 and 2.0.2: without rates they borrow the rates of the block
+	// before (seed%4 < 2) or, when that one has none either, are skipped altogether
+	for q := ((e.V20 + 143) / 144) * 144; q < e.V202; q += 144 {
+		delete(m.ForceGraded, q)
+		m.ForceUngraded[q] = true
+		m.ForceGraded[q+1] = true
+		if p.Seed%4 < 2 {
+			m.ForceGraded[q-1] = true
+		} else {
+			delete(m.ForceGraded, q-1)
+			m.ForceUngraded[q-1] = true
+		}
+	}
 	for i, d := range []uint32{2, 1, 1, 0} {
 		hh, k, i := h-d, ks[i], i
 		m.Schedule(hh, func(v *gen.View, s *forge.BlockSpec) {
@@ -563,6 +593,46 @@ func featC16(m *gen.Mixed, ts *gen.TieSetup, p *modelParams) {
 				}
 				s.Tx = append(s.Tx, forge.SignedBatch([]forge.Tx{forge.Conversion(k.FA(), fat2.PTickerUSD, amt, fat2.PTickerPEG)}, m.W.EntryTime(h)+int64(60+i), k))
 			}
+			// requests that are rejected when they are executed (they must take no part in the allocation):
+			// the whole balance requested twice, one unit more than the balance, and funds moved away by a
+			// transfer entered after the request
+			switch rng.Intn(4) {
+			case 0:
+				k := ks[rng.Intn(len(ks))]
+				if bal := v.Balances.Get(k.FA(), fat2.PTickerUSD); bal > 10 {
+					for i := 0; i < 2; i++ {
+						s.Tx = append(s.Tx, forge.SignedBatch([]forge.Tx{forge.Conversion(k.FA(), fat2.PTickerUSD, bal, fat2.PTickerPEG)}, m.W.EntryTime(h)+int64(110+i), k))
+					}
+				}
+			case 1:
+				k := ks[rng.Intn(len(ks))]
+				if bal := v.Balances.Get(k.FA(), fat2.PTickerUSD); bal > 10 {
+					s.Tx = append(s.Tx, forge.SignedBatch([]forge.Tx{forge.Conversion(k.FA(), fat2.PTickerUSD, bal+1, fat2.PTickerPEG)}, m.W.EntryTime(h)+112, k))
+				}
+			case 2:
+				k := ks[rng.Intn(len(ks))]
+				if bal := v.Balances.Get(k.FA(), fat2.PTickerUSD); bal > 10 {
+					s.Tx = append(s.Tx, forge.SignedBatch([]forge.Tx{forge.Conversion(k.FA(), fat2.PTickerUSD, bal/2+1, fat2.PTickerPEG)}, m.W.EntryTime(h)+113, k))
+					s.Tx = append(s.Tx, forge.SignedBatch([]forge.Tx{forge.Transfer(k.FA(), fat2.PTickerUSD, bal/2+1, ks[rng.Intn(len(ks))].FA())}, m.W.EntryTime(h)+114, k))
+				}
+			}
+			// dust next to a request far above the bank: the share rounds down to 0 PEG while the refund of
+			// the unfilled part is still due (and must be recorded)
+			if rng.Intn(3) == 0 {
+				if bal := v.Balances.Get(ts.Whale.FA(), fat2.PTickerUSD); bal > 200*bankUSD {
+					big := 200_000 * bankUSD // so far above the bank that a request of a few units is allotted 0 PEG
+					if big > bal/2 {
+						big = bal / 2
+					}
+					s.Tx = append(s.Tx, forge.SignedBatch([]forge.Tx{forge.Conversion(ts.Whale.FA(), fat2.PTickerUSD, big, fat2.PTickerPEG)}, m.W.EntryTime(h)+115, ts.Whale))
+					for i := 0; i < 3; i++ {
+						k := ks[rng.Intn(len(ks))]
+						if v.Balances.Get(k.FA(), fat2.PTickerUSD) > 1000 {
+							s.Tx = append(s.Tx, forge.SignedBatch([]forge.Tx{forge.Conversion(k.FA(), fat2.PTickerUSD, uint64(3+rng.Intn(60)), fat2.PTickerPEG)}, m.W.EntryTime(h)+int64(116+i), k))
+						}
+					}
+				}
+			}
 		})
 	}
 }
@@ -593,6 +663,60 @@ func featC14(m *gen.Mixed, ts *gen.TieSetup, p *modelParams) {
 	}
 	firstSnap := ((e.V20 + 143) / 144) * 144
 	sink := forge.NewKey(fmt.Sprintf("c14-sink-%d", p.Seed)).FA()
+	// some holders spread their stake over several assets (pXBT, pETH, pJPY besides pUSD) ...
+	multi := ks
+	if len(multi) > 6 {
+		multi = multi[:6]
+	}
+	m.ForceGraded[first+3] = true
+	m.ForceGraded[first+4] = true
+	m.Schedule(first+3, func(v *gen.View, s *forge.BlockSpec) {
+		for i, k := range multi {
+			bal := v.Balances.Get(k.FA(), fat2.PTickerUSD)
+			if bal < 1000 {
+				continue
+			}
+			txs := []forge.Tx{forge.Conversion(k.FA(), fat2.PTickerUSD, bal/4, fat2.PTickerXBT), forge.Conversion(k.FA(), fat2.PTickerUSD, bal/4, fat2.PTickerETH)}
+			if i%2 == 0 {
+				txs = append(txs, forge.Conversion(k.FA(), fat2.PTickerUSD, bal/5, fat2.PTickerJPY))
+			}
+			s.Tx = append(s.Tx, forge.SignedBatch(txs, m.W.EntryTime(first+3)+int64(75+i), k))
+		}
+	})
+	// ... and at every other snapshot height from 2.0.2 on one of those assets (pXBT) has no price: the
+	// staking records put it far from the mining records, the 25 % band records its rate as 0. The
+	// unpriced asset counts for nothing; every priced one still counts, whatever its position in the list.
+	for s0, n := ((e.V202+143)/144)*144, 0; s0 < firstSnap+144*4; s0, n = s0+144, n+1 {
+		if (n%2 == 1) != containsStr(p.Features, "ungraded-snapshot") {
+			continue // (profiles with the ungraded-snapshot feature have no rates at all at the first of these heights)
+		}
+		s0 := s0
+		m.ForceGraded[s0] = true
+		m.Schedule(s0, func(v *gen.View, s *forge.BlockSpec) {
+			if len(s.SPR) < 25 || len(s.OPR) < 25 {
+				return
+			}
+			sp := map[string]uint64{}
+			for k, x := range m.W.Prices {
+				sp[k] = x
+			}
+			sp["XBT"] = m.W.Prices["XBT"] * 2
+			var st []forge.Key
+			for _, a := range gen.TopPEG(v.Balances, 100) {
+				for _, k := range m.Actors {
+					if k.FA() == a && !k.IsEth() {
+						st = append(st, k)
+					}
+				}
+			}
+			if len(st) > 30 {
+				st = st[:30]
+			}
+			if len(st) >= 25 {
+				s.SPR = m.W.StdSPRs(s0, st, sp)
+			}
+		})
+	}
 	// movements between snapshots: out, in, round trip, new arrival
 	for s0 := firstSnap; s0 < firstSnap+144*4; s0 += 144 {
 		for i := 0; i < 6 && i < len(ks); i++ {
@@ -642,6 +766,32 @@ func featC11(m *gen.Mixed, ts *gen.TieSetup, p *modelParams) {
 		m.Schedule(h, func(v *gen.View, s *forge.BlockSpec) {
 			w := m.W
 			ver := e.OPRVersion(h)
+			if ver == 1 && len(s.OPR) >= 10 {
+				// V1 grading does not look at the payout address: two records naming something that is not an
+				// address, with enough proof of work to rank first and second among equally good records.
+				// They are winners and are paid nothing; every other winner keeps its own rank, reward and row.
+				for ri, bad := range []string{"not-an-address", ""} {
+					var best forge.Entry
+					var bestD uint64
+					for idx := 5000 + 200*ri; idx < 5200+200*ri; idx++ {
+						en := w.OPR(h, ver, idx, w.Prices, bad)
+						x := en.ExtIDs()
+						if len(x) < 2 || len(x[1]) != 8 {
+							continue
+						}
+						var d uint64
+						for _, b := range x[1] {
+							d = d<<8 | uint64(b)
+						}
+						if d >= bestD {
+							best, bestD = en, d
+						}
+					}
+					if bestD > 0 {
+						s.OPR = append(s.OPR, best)
+					}
+				}
+			}
 			switch rng.Intn(10) {
 			case 8: // staking records whose staker id is not a 32-byte address: a holder's address with a
 				// trailing byte, cut short by one byte, or empty — signed by that holder, valid otherwise.
